@@ -20,15 +20,15 @@ PROP = dict(
          "signs, rounding carries, +-inf, NaN, raw bit patterns unformatted; empty, full-width, blank-containing strings). "
          "Non-trivial: at least one data element; distinct = distinct hash of (format, reference bytes).",
     stages=[
-        dict(harness="c07_codec", flavour="plain", cases={Q: 33752 + 6000, T: 33752 + 400000}, timeout={Q: 600, T: 5400},
+        dict(harness="c07_codec", flavour="plain", cases={Q: 33752 + 6000, T: 33752 + 250000}, timeout={Q: 600, T: 5400},
              args=["mode=full"], tier_args={Q: ["maxlen=20000"], T: ["maxlen=100000"]}),
         dict(id="c07_codec_asan", harness="c07_codec", flavour="asan", cases={Q: 330 + 1670, T: 330 + 20000}, timeout={Q: 600, T: 5400},
              args=["mode=boundary", "wide_c0nn=1"], tier_args={Q: ["maxlen=5000"], T: ["maxlen=30000"]}),
     ],
-    min_nontrivial={Q: 35000, T: 350000},
-    coverage_floor=[("c07_codec", "comparisons_bytes", {Q: 39000, T: 430000}),
-                    ("c07_codec", "comparisons_libread_arrays", {Q: 95000, T: 1500000}),
-                    ("c07_codec", "comparisons_refdecode_elements", {Q: 50000000, T: 2000000000}),
+    min_nontrivial={Q: 35000, T: 250000},
+    coverage_floor=[("c07_codec", "comparisons_bytes", {Q: 39000, T: 280000}),
+                    ("c07_codec", "comparisons_libread_arrays", {Q: 95000, T: 1000000}),
+                    ("c07_codec", "comparisons_refdecode_elements", {Q: 50000000, T: 1500000000}),
                     ("c07_codec_asan", "comparisons_libread_arrays", {Q: 6000, T: 60000})],
     exhaustive_subspaces=[
         "c07_codec: array length 0..2002 for INTE, REAL, DOUB, LOGI and 0..212 for CHAR, C0nn, each x {formatted, unformatted} x "
@@ -43,5 +43,5 @@ PROP = dict(
     ],
     assumptions=["libc printf/strtod produce correctly rounded decimal digits",
                  "strings carry no trailing blanks (padding is indistinguishable from them) and names are 1..8 characters without quotes",
-                 "formatted C0nn arrays of width <= 77 in the plain stage; widths 78..99 (one element per line) only in the sanitizer stage"],
+                 "formatted C0nn arrays of width <= 77 in the plain stage; widths 78..99 (one element per line: the library's rule floor(80/(nn+3)) columns, at least one) only in the sanitizer stage (wide_c0nn=1)"],
 )
